@@ -361,4 +361,30 @@ theorem serviceAll_noDone {H : Type} (host : H → Nat → T → H × T) (h : H)
     (hd : NoDone r) : NoDone (serviceAll host h r).2 :=
   ⟨serviceList_done host h _ hd.1, hd.2⟩
 
+/-- budgets add up (see `C10_runN_add`) -/
+theorem runN_add (step : T → Action T V E) (a b : Nat) (r : Runtime T V E) (hd : NoDone r) :
+    runN step (a + b) r =
+      (if (runN step a r).doneNow then runN step a r
+       else { runN step b (runN step a r).rt with
+              steps := (runN step a r).steps + (runN step b (runN step a r).rt).steps }) := by
+  unfold runN roundRobin
+  simp only
+  by_cases hdr : (drainNewThreads r).2 = true
+  · simp [hdr]
+  · have hdr' : (drainNewThreads r).2 = false := by simpa using hdr
+    have hn := drain_newThreads r hdr'
+    have hnd := drain_noDone r hd
+    simp only [hdr', Bool.false_eq_true, if_false]
+    rw [loop_add step a b 0 _ hn hnd]
+    by_cases hl : (loop step a 0 (drainNewThreads r).1).2.1 = true
+    · simp [hl]
+    · have hl' : (loop step a 0 (drainNewThreads r).1).2.1 = false := by simpa using hl
+      have hinv := loop_inv step a 0 _ hn hnd
+      have hn2 := hinv.2 hl'
+      simp only [hl', Bool.false_eq_true, if_false]
+      rw [drain_nil _ hn2]
+      simp only [Bool.false_eq_true, if_false]
+      rw [loop_steps_shift step b (loop step a 0 (drainNewThreads r).1).2.2]
+      split <;> simp
+
 end Abra.Sched
